@@ -3,28 +3,145 @@ from runner import H
 
 EC = ['erasure_code/ec_base.c']
 PB = 'srcs<=K, dests<=R from harness-built pointer arrays (K/R = 4/3 quick, 8/4 thorough); len unbounded'
+PBU = 'rows<=R from the harness-built pointer array (R = 3 quick, 4 thorough); k<=255; len unbounded'
 FOLD = 'ghost fold axiom S_ec[j+1]==S_ec[j]^spec_gf_mul(src[j][g_i],v[(g_l*srcs+j)*32+1]) per executed iteration (defines the spec)'
+REFRESH = ('GHOST_SAME_VALUE(p,e) in loop hooks: asserts p==e (an obligation) and then re-assigns the same value to restore '
+           'CBMC points-to information after a loop-contract havoc; not an assumption')
+STD = ['postcondition', 'loop_invariant_step', 'loop_decreases']
 
 HARNESSES = [
+    # ---------------------------------------------------------------- C03
     H('ec_encode_data_base', ['C03'], 'ec/ec_vect.c', EC, enforce='ec_encode_data_base', replace=['gf_mul'],
-      also=['C05', 'C15'], timeout=900, expect=['postcondition', 'loop_invariant_step', 'loop_decreases'],
-      replay=('ec.c', 'ec_encode_data_base'), bounds=PB, trusted=[FOLD]),
+      also=['C05', 'C15'], timeout=1200, expect=STD, replay=('ec.c', 'ec_encode_data_base'), bounds=PB, trusted=[FOLD]),
     H('gf_vect_dot_prod_base', ['C03'], 'ec/ec_vect.c', EC, enforce='gf_vect_dot_prod_base', replace=['gf_mul'],
-      also=['C05', 'C15'], timeout=900, expect=['postcondition', 'loop_invariant_step', 'loop_decreases'],
-      replay=('ec.c', 'gf_vect_dot_prod_base'), bounds=PB, trusted=[FOLD]),
+      also=['C05', 'C15'], timeout=900, expect=STD, replay=('ec.c', 'gf_vect_dot_prod_base'), bounds=PB,
+      trusted=[FOLD]),
+    # ---------------------------------------------------------------- C13
     H('gf_vect_mad_base', ['C13'], 'ec/ec_vect.c', EC, enforce='gf_vect_mad_base', replace=['gf_mul'],
-      also=['C05', 'C15'], timeout=600, expect=['postcondition', 'loop_invariant_step', 'loop_decreases'],
-      replay=('ec.c', 'gf_vect_mad_base')),
+      also=['C05', 'C15'], timeout=600, expect=STD, replay=('ec.c', 'gf_vect_mad_base'), bounds='vec<=255; len>=1 unbounded'),
+    H('gf_vect_mad_base_empty', ['C13'], 'ec/ec_vect.c', EC, replace=['gf_mul'], also=['C05'], timeout=300,
+      unwind=6, defines=['EC_NO_HOOK_CANARY'], min_obligations=3, expect=['unwind'],
+      replay=('ec.c', 'gf_vect_mad_base'),
+      note='len<=0: loops do not iterate (unwinding assertion), all blocks have size 0'),
     H('ec_encode_data_update_base', ['C13'], 'ec/ec_vect.c', EC, enforce='ec_encode_data_update_base',
-      replace=['gf_mul'], also=['C05', 'C15'], timeout=900,
-      expect=['postcondition', 'loop_invariant_step', 'loop_decreases'],
+      replace=['gf_mul'], also=['C05', 'C15'], timeout=1200, expect=STD, solver='cadical',
+      replay=('ec.c', 'ec_encode_data_update_base'), bounds=PBU + ' (len>=1, rows>=1)'),
+    H('ec_encode_data_update_base_empty', ['C13'], 'ec/ec_vect.c', EC, replace=['gf_mul'], also=['C05'], timeout=300,
+      unwind=6, defines=['EC_NO_HOOK_CANARY'], min_obligations=3, expect=['unwind'],
       replay=('ec.c', 'ec_encode_data_update_base'),
-      bounds='rows<=R from the harness-built pointer array (R = 3 quick, 4 thorough); k<=255; len unbounded'),
+      note='len<=0 or rows<=0: loops do not iterate, nothing is accessed'),
     H('gf_vect_mul_base', ['C13'], 'ec/ec_vect.c', EC, enforce='gf_vect_mul_base', replace=['gf_mul'],
-      also=['C05', 'C15'], timeout=600, expect=['postcondition', 'loop_invariant_step', 'loop_decreases'],
-      replay=('ec.c', 'gf_vect_mul_base')),
+      also=['C05', 'C15'], timeout=600, expect=STD, replay=('ec.c', 'gf_vect_mul_base'), trusted=[REFRESH],
+      bounds='every int len except INT_MIN (len-- overflows there)'),
+    H('update_twice_restores', ['C13'], 'ec/ec_vect.c', EC, replace=['ec_encode_data_update_base'], timeout=600,
+      expect=['assertion', 'precondition'], min_obligations=3, bounds=PBU,
+      note='lemma over the proved contract of ec_encode_data_update_base'),
+    H('updates_commute', ['C13'], 'ec/ec_vect.c', EC, replace=['ec_encode_data_update_base'], timeout=600,
+      expect=['assertion', 'precondition'], min_obligations=3, bounds=PBU,
+      note='lemma over the proved contract of ec_encode_data_update_base'),
+    H('updates_any_order_equal_encode', ['C13'], 'ec/ec_vect.c', EC, replace=['ec_encode_data_update_base'],
+      also=['C03'], timeout=900, expect=['assertion', 'precondition'], min_obligations=3,
+      bounds='k<=4 updates in an arbitrary permutation; ' + PBU,
+      note='lemma over the proved contract: k single-source updates from zero parity == XOR-fold of C03'),
+    # ---------------------------------------------------------------- C12 (table placement)
     H('ec_init_tables_base', ['C12'], 'ec/ec_vect.c', EC, enforce='ec_init_tables_base',
-      replace=['gf_vect_mul_init'], also=['C03', 'C05', 'C15'], timeout=900,
-      expect=['postcondition', 'loop_invariant_step', 'loop_decreases', 'precondition'],
-      replay=('ec.c', 'ec_init_tables_base'), bounds='k<=255, rows<=255'),
+      replace=['gf_vect_mul_init'], also=['C03', 'C05', 'C15'], timeout=1800,
+      defines=['EC_TBL_MAX=8'], expect=STD + ['precondition'], replay=('ec.c', 'ec_init_tables_base'),
+      trusted=[REFRESH], bounds='k<=8, rows<=8 (parameter-bounded; both loops closed by contract; k,rows<=32 in thorough tier)'),
+    H('ec_init_tables_base_32', ['C12'], 'ec/ec_vect.c', EC, enforce='ec_init_tables_base',
+      entry='h_ec_init_tables_base', replace=['gf_vect_mul_init'], also=['C03', 'C05'], timeout=14400,
+      tier='thorough', defines=['EC_TBL_MAX=32'], expect=STD + ['precondition'], replay=('ec.c', 'ec_init_tables_base'),
+      trusted=[REFRESH], bounds='k<=32, rows<=32 (parameter-bounded; k,rows<=255 did not close within 90 min of SAT time)'),
+    # ---------------------------------------------------------------- C09 generators
 ]
+MXT = ['ghost table gh_pow[t]=2^t built by t-fold spec_gf_mul(.,2) at function entry (ghost code, no assumption)']
+for fn, rep, tr in (('gf_gen_cauchy1_matrix', 'gf_inv', []), ('gf_gen_rs_matrix', 'gf_mul', MXT)):
+    HARNESSES += [
+        H(fn + '_small', ['C09'], 'ec/ec_matrix.c', EC, enforce=fn, entry='h_' + fn, replace=[rep], also=['C05', 'C15'],
+          timeout=1500, solver='cadical', defines=['MX_MMAX=16', 'MX_KMAX=16'], expect=STD, replay=('ec.c', fn), trusted=tr,
+          bounds='k<=m<=16 (parameter-bounded, all three loops closed by contract; full range in thorough tier)'),
+        H(fn + '_tall', ['C09'], 'ec/ec_matrix.c', EC, enforce=fn, entry='h_' + fn, replace=[rep], also=['C05'],
+          timeout=1500, solver='cadical', defines=['MX_MMAX=256', 'MX_KMAX=3'], expect=STD, replay=('ec.c', fn), trusted=tr,
+          bounds='k<=3, m<=256 (parameter-bounded, all three loops closed by contract; full range in thorough tier)'),
+        H(fn, ['C09'], 'ec/ec_matrix.c', EC, enforce=fn, replace=[rep], also=['C05'], tier='thorough',
+          timeout=14400, solver='cadical', expect=STD, replay=('ec.c', fn), trusted=tr, bounds='k<=m<=256'),
+    ]
+HARNESSES += [
+    H('spec_matrix_lemmas', ['C09'], 'ec/ec_matrix.c', EC, timeout=600, expect=['assertion'], min_obligations=4,
+      note='spec_gf_inv(a)=a^254 is the inverse; spec_gf_pow2 is a homomorphism Z/255 -> GF(2^8)* of order exactly 255'),
+    # ---------------------------------------------------------------- C09 inversion
+    H('gf_invert_matrix_safety_n8', ['C09'], 'ec/ec_matrix.c', EC, enforce='gf_invert_matrix', entry='h_gf_invert_matrix',
+      replace=['gf_mul', 'gf_inv'], also=['C05', 'C15'], timeout=1500, defines=['INV_NMAX=8'],
+      expect=['postcondition', 'loop_invariant_step', 'loop_decreases'], replay=('ec.c', 'gf_invert_matrix'),
+      bounds='n<=8 (parameter-bounded; all eight loops closed by contract; n<=128 in thorough tier); '
+             'memory safety, frame, termination, return value in {0,-1} only'),
+    H('gf_invert_matrix', ['C09'], 'ec/ec_matrix.c', EC, enforce='gf_invert_matrix', replace=['gf_mul', 'gf_inv'],
+      also=['C05'], tier='thorough', timeout=14400, solver='cadical',
+      expect=['postcondition', 'loop_invariant_step', 'loop_decreases'], replay=('ec.c', 'gf_invert_matrix'),
+      bounds='n<=128; memory safety, frame, termination, return value in {0,-1} only'),
+    H('gf_invert_matrix_func_n3_gf2', ['C09'], 'ec/ec_matrix.c', EC, entry='h_gf_invert_matrix_func',
+      replace=['gf_mul', 'gf_inv'], kind='bounded', unwind=10, timeout=900, solver='cadical', object_bits=13,
+      defines=['INVF_NMAX=3', 'INVF_EMAX=1'], expect=['assertion', 'unwind'], replay=('ec.c', 'gf_invert_matrix'),
+      bounds='n<=3, every entry in {0,1}: ret==0 => in x out == I, ret==-1 <=> det==0 (unwinding-bounded)'),
+    H('gf_invert_matrix_func_n2_e15', ['C09'], 'ec/ec_matrix.c', EC, entry='h_gf_invert_matrix_func',
+      replace=['gf_mul', 'gf_inv'], kind='bounded', unwind=10, timeout=1200, solver='cadical', object_bits=13,
+      defines=['INVF_NMAX=2', 'INVF_EMAX=15'], expect=['assertion', 'unwind'], replay=('ec.c', 'gf_invert_matrix'),
+      bounds='n<=2, every entry in 0..15: ret==0 => in x out == I, ret==-1 <=> det==0 (unwinding-bounded)'),
+    H('gf_invert_matrix_func_n3_e3', ['C09'], 'ec/ec_matrix.c', EC, entry='h_gf_invert_matrix_func',
+      replace=['gf_mul', 'gf_inv'], kind='bounded', unwind=10, timeout=7200, solver='cadical', object_bits=13,
+      tier='thorough', defines=['INVF_NMAX=3', 'INVF_EMAX=3'], expect=['assertion', 'unwind'],
+      replay=('ec.c', 'gf_invert_matrix'),
+      bounds='n<=3, every entry in 0..3: ret==0 => in x out == I, ret==-1 <=> det==0 (unwinding-bounded)'),
+]
+
+PROP_TEXT = {
+    'C03': {
+        'assumptions': [
+            'gf_vect_dot_prod_base / ec_encode_data_base: the unsigned char** arrays are built by the harness with at most K sources and R '
+            'outputs (4/3 quick, 8/4 thorough), blocks pairwise disjoint; every loop of the code is closed by a loop contract, so len, '
+            'block contents and table contents are unbounded; the inductive argument does not depend on K/R',
+            'the coefficient of (row l, source j) is byte 1 of 32-byte block l*srcs+j of the tables (the c*1 entry of the expansion); '
+            'the base functions are proved for arbitrary other table bytes',
+            'ghost fold axioms S_ec[j+1]==S_ec[j]^spec_gf_mul(src[j][g_i],coef(g_l,j)), one per executed iteration of the real j-loop',
+            'lemma updates_any_order_equal_encode: k<=4 single-source updates from a zero parity byte, in an arbitrary permutation, '
+            'equal the same XOR-fold (over the proved contract of ec_encode_data_update_base)',
+        ],
+        'not_decided': ['alignment 0..63 effects and every gf_*vect_dot_prod_* assembly kernel'],
+    },
+    'C13': {
+        'assumptions': [
+            'gf_vect_mad_base / ec_encode_data_update_base are proved for len>=1 (and rows>=1) with one ghost byte; len<=0 / rows<=0 '
+            'by the *_empty harnesses (loops do not iterate, zero-size blocks); rows<=R from the harness-built pointer array; k<=255',
+            'gf_vect_mul_base: every int len except INT_MIN (the code computes len-- on it: signed overflow); negative multiples of 32 '
+            'return 0 and write nothing',
+            'update-twice-cancels, commutation and any-order==encode are lemmas over the proved contract (calls replaced by contract); '
+            '"for every k" beyond 4 is the obvious induction, not mechanised',
+        ],
+        'not_decided': ['gf_*vect_mad_* / gf_vect_mul_{sse,avx} assembly kernels (tail blending)'],
+    },
+    'C12': {
+        'assumptions': [
+            'ec_init_tables_base: block n of g_tbls is the expansion of a[n] for every n<k*rows (n=i*k+j); gf_vect_mul_init used through '
+            'its proved contract; quick tier k,rows<=8, thorough tier k,rows<=32 (both loops closed by contract; the arithmetic is independent of the bound, but SAT did not close k,rows<=255 within 100 min); native battery covers (255,1), (1,255), (32,32)',
+        ],
+        'not_decided': [],
+    },
+    'C09': {
+        'assumptions': [
+            'gf_gen_cauchy1_matrix / gf_gen_rs_matrix: requires k<=m<=256 (m<k writes the identity past m*k bytes; a row index >255 does '
+            'not fit (unsigned char)(i^j)); quick tier proves k<=m<=16 and k<=3,m<=256, thorough tier k<=m<=256; all loops by contract',
+            'gf_gen_rs_matrix postcondition is the closed form a[r*k+c]==2^(((r-k)*c) mod 255) (2 has order 255); NOTE the comment in '
+            'include/erasure_code.h says 2^{i*(j-k+1)}, i.e. first parity row 1,2,4,..; the code (and gen_rs_matrix_limits.c, which '
+            'produced the documented safe (m,k) list) uses exponent (j-k): first parity row all ones. Contract follows the code/limits tool.',
+            'gf_invert_matrix: unbounded-n statement is memory safety + frame + termination + result in {0,-1} only (n<=8 quick, n<=128 '
+            'thorough, loops by contract); in x out == I and "-1 iff singular" are BOUNDED stand-ins: n<=3 over {0,1}, n<=2 over 0..15 '
+            '(quick), n<=3 over 0..3 (thorough), by unwinding; full 8-bit entries did not close in 20 min even for n=2',
+            'native battery (replay/ec.c): all 0/1 matrices n<=4, all 2x2 with entries<16, 60000 random/rank-deficient/zero-pivot n<=6',
+        ],
+        'not_decided': [
+            'every k-subset of Cauchy rows is invertible (Cauchy determinant theorem; the proved entries 1/(r^c) are its hypothesis)',
+            'the documented safe (m,k) list of the Vandermonde generator (enumeration result, erasure_code/gen_rs_matrix_limits.c)',
+            'decode = encode with inverted matrix reproduces erased blocks (follows from C03 + inversion correctness; not mechanised)',
+        ],
+    },
+}
